@@ -220,7 +220,8 @@ func (op Addp) Op_instruction_internal_state(arch *Arch, flavor string) string {
 }
 
 func (Op Addp) Op_instruction_verilog_reset(arch *Arch, flavor string) string {
-	return ""
+	// Without a reset value the state register is undefined and the instruction never starts
+	return "\t\t\taddp_" + arch.Tag + "_state <= #1 addp_" + arch.Tag + "_put;\n"
 }
 
 func (Op Addp) Op_instruction_verilog_default_state(arch *Arch, flavor string) string {
